@@ -606,3 +606,105 @@ Print Assumptions readers_placed_points_st.
 Print Assumptions ply_points_st_roundtrip.
 Print Assumptions ply_points_st_dup_refuted.
 Print Assumptions ply_points_tex_nounspec.
+
+(* ================= the property for point clouds with per-vertex s/t, all three encodings at once ================= *)
+(* the reader's group list does not depend on the encoding (only the cursors do) *)
+Theorem readers_placed_points_st_uniform : forall o m,
+  o_writers o = default_writers -> wf_mesh m = true -> w_topo m = TPoint -> has_tex m = true -> o_unspec o = true ->
+  no_user_st m = true ->
+  exists L, keys_ok [] L = true /\ Permutation L (rview o m) /\
+            forall bin, exists PL, map fst PL = L /\ readers_placed bin (rview o m) PL.
+Proof.
+  intros o m Ho Hwf Tp Hx Hu Hst. unfold wf_mesh in Hwf.
+  apply andb_prop in Hwf. destruct Hwf as [Hwf Htopo]. apply andb_prop in Hwf. destruct Hwf as [Hwf Hop].
+  apply andb_prop in Hwf. destruct Hwf as [Hwf Hres]. apply andb_prop in Hwf. destruct Hwf as [Hwf Hnd].
+  apply andb_prop in Hwf. destruct Hwf as [Hwf Hemp]. apply andb_prop in Hwf. destruct Hwf as [Hattr Hkn].
+  apply nodupb_NoDup in Hnd. apply not_existsb_In in Hop.
+  unfold no_user_st in Hst. apply andb_prop in Hst. destruct Hst as [Hs_ Ht_]. apply not_existsb_In in Hs_, Ht_.
+  destruct (ud_split m Tp Hx Hkn) as (L1 & L2 & Eu & Hl).
+  pose proof (rview_shape_st o m L1 L2 Ho Hu Eu Hl) as Er.
+  pose proof (user_names_st m L1 L2 Eu Hl) as En.
+  set (A1 := map (group_of m) (filter (qualifies m) dwA)). set (A2 := map (group_of m) (filter (qualifies m) dwB)).
+  set (T1s := tail_of m L1). set (T2s := tail_of m L2). set (tg := group_of m tex_pw).
+  assert (EA : map (group_of m) (qd m) = A1 ++ A2) by (rewrite qd_split, map_app; reflexivity).
+  rewrite EA in Er. fold T1s T2s tg in Er.
+  assert (Hsc : Forall scalar_group (T1s ++ T2s)) by (apply Forall_app; split; apply tail_scalar).
+  assert (Eattr : map rg_attr (T1s ++ T2s) = user_names m)
+    by (rewrite map_app; unfold T1s, T2s; rewrite !tail_attrs; symmetry; exact En).
+  assert (Hdis : forall n, In n (user_names m) -> ~ In n (default_prop_names m))
+    by (intros n Hn Hd; apply (NoDup_app_disjoint _ _ Hnd n); assumption).
+  apply NoDup_app_tail in Hnd.
+  assert (Enames : flat_map rg_names (A1 ++ A2) = default_prop_names m) by (rewrite <- EA, <- pnames_props; apply pnames_pregs).
+  exists (A1 ++ tg :: A2 ++ T1s ++ T2s). split; [|split].
+  - assert (E : A1 ++ tg :: A2 ++ T1s ++ T2s = (A1 ++ tg :: A2) ++ (T1s ++ T2s)) by (rewrite <- app_assoc; reflexivity).
+    rewrite E, keys_ok_app. cbn [app]. unfold A1, A2, tg. rewrite keys_ok_pregs_st. cbn [andb]. fold A1 A2 tg.
+    apply keys_ok_scalars; [exact Hsc|rewrite Eattr; exact Hnd|].
+    intros g s Hg Hs. pose proof Hsc as Hsc'. rewrite Forall_forall in Hsc'. specialize (Hsc' g Hg).
+    assert (Hs' : In s (map (group_of m) (qd m)) \/ s = tg).
+    { rewrite EA. apply in_app_or in Hs. destruct Hs as [Hs|[Hs|Hs]]; [left; apply in_or_app; left; exact Hs|right; symmetry; exact Hs|left; apply in_or_app; right; exact Hs]. }
+    destruct Hs' as [Hs' | ->].
+    + apply (pregs_vs_tail m); [exact Hsc'| |exact Hs']. intros E'. apply Hop. rewrite <- E', <- Eattr. apply in_map, Hg.
+    + unfold gkey_eqb, gattr, key_eqb. rewrite Hsc'. reflexivity.
+  - rewrite Er. rewrite <- app_assoc. apply Permutation_app_head.
+    rewrite !app_assoc. apply Permutation_middle.
+  - intros bin. exists (st_placement bin A1 A2 T1s tg T2s). split; [apply st_placement_fst|].
+    rewrite Er. apply (readers_placed_st_open bin m (qualifies m) T1s T2s).
+    + exact Hsc.
+    + rewrite Eattr. exact Hnd.
+    + intros g Hg. assert (Hin : In (rg_attr g) (user_names m)) by (rewrite <- Eattr; apply in_map, Hg). split.
+      * fold A1 A2. rewrite Enames. apply Hdis, Hin.
+      * intros [E|[E|[]]]; [apply Hs_|apply Ht_]; rewrite E; exact Hin.
+    + fold A1 A2. apply Forall_forall. intros g Hg. apply group_openb_open; [apply all_scalar_props|].
+      rewrite !pnames_props, Enames, (scalar_names _ Hsc), Eattr.
+      unfold no_group_completedb in Hres. rewrite forallb_forall in Hres. apply Hres. rewrite default_groups_split.
+      apply in_app_or in Hg. apply in_or_app. destruct Hg as [Hg|Hg]; [left; exact Hg|right; right; exact Hg].
+Qed.
+
+(* THE PROPERTY for this class: the three files exist, ply.ReadMesh's model returns ONE mesh r' from all three, r' has
+   the topology and indices of [expected o m] and the same attributes (in the reader's order), and the header of each
+   file describes its body *)
+Theorem ply_property_points_st : forall o m,
+  o_writers o = default_writers -> wf_mesh m = true -> w_topo m = TPoint -> has_tex m = true -> o_unspec o = true ->
+  no_user_st m = true ->
+  let gs := map (group_of m) (effective_writers o m) in
+  exists fa fl fb r r',
+    write o ASCII m = Ok fa /\ write o BinLE m = Ok fl /\ write o BinBE m = Ok fb /\
+    expected o m = Ok r /\ read_mesh fa = Ok r' /\ read_mesh fl = Ok r' /\ read_mesh fb = Ok r' /\
+    m_topo r' = m_topo r /\ m_idx r' = m_idx r /\ Permutation (m_attrs r') (m_attrs r) /\
+    described ASCII gs m fa /\ described BinLE gs m fl /\ described BinBE gs m fb.
+Proof.
+  intros o m Ho Hwf Tp Hx Hu Hst gs.
+  destruct (readers_placed_points_st_uniform o m Ho Hwf Tp Hx Hu Hst) as (L & Hk & Hperm & Hpl).
+  destruct (wf_faces m Hwf) as (Hm3 & Htx & Hat).
+  pose proof (effective_good o m Ho Hat) as Hg.
+  destruct (rview_same (w_n m) m (effective_writers o m) Hg) as (P & Gd & _). fold (rview o m) in Gd, P.
+  pose proof Hwf as Hwf'. unfold wf_mesh in Hwf'.
+  apply andb_prop in Hwf'. destruct Hwf' as [Hwf' _]. apply andb_prop in Hwf'. destruct Hwf' as [Hwf' _].
+  apply andb_prop in Hwf'. destruct Hwf' as [Hwf' _]. apply andb_prop in Hwf'. destruct Hwf' as [Hwf' _].
+  apply andb_prop in Hwf'. destruct Hwf' as [Hwf' Hemp]. apply andb_prop in Hwf'. destruct Hwf' as [_ Hkn].
+  assert (Hn : (0 < w_n m)%nat).
+  { unfold has_tex, has_attr in Hx. destruct (w_attrs m); [discriminate Hx|]. destruct (w_n m); [discriminate Hemp|lia]. }
+  assert (Hne : vertex_props (rview o m) <> []).
+  { destruct (ud_split m Tp Hx Hkn) as (L1 & L2 & Eu & Hl). rewrite (rview_shape_st o m L1 L2 Ho Hu Eu Hl).
+    rewrite !vertex_props_app. intros E. apply app_eq_nil in E. destruct E as [_ E]. apply app_eq_nil in E. destruct E as [_ E].
+    discriminate E. }
+  assert (Hgs : gs <> []).
+  { intros Hnil. apply Hne. rewrite P. fold gs. rewrite Hnil. reflexivity. }
+  assert (R : forall f, exists file, write o f m = Ok file /\
+            read_mesh file = Ok {| m_topo := TPoint; m_idx := iota (w_n m); m_attrs := map gattr L |} /\ described f gs m file).
+  { intros f. destruct (Hpl (is_bin f)) as (PL & EL & Hrp). rewrite <- EL in Hk.
+    destruct (ply_points_placed o f m PL Ho Hwf Tp Hn Hrp Hk (fun _ => conj (ascii_ok_rview o m Ho) Hne)) as (file & W & Rd).
+    destruct (write_header_describes_body o f m Hg (fun _ => or_intror Hgs) Hm3 Htx) as (file' & W' & D1 & D2 & D3 & D4).
+    assert (file' = file) by congruence. subst file'. exists file. rewrite EL in Rd.
+    split; [exact W|]. split; [exact Rd|]. unfold described. auto. }
+  destruct (R ASCII) as (fa & Wa & Ra & Da). destruct (R BinLE) as (fl & Wl & Rl & Dl). destruct (R BinBE) as (fb & Wb & Rb & Db).
+  exists fa, fl, fb, {| m_topo := TPoint; m_idx := iota (w_n m); m_attrs := map gattr (rview o m) |},
+         {| m_topo := TPoint; m_idx := iota (w_n m); m_attrs := map gattr L |}.
+  split; [exact Wa|]. split; [exact Wl|]. split; [exact Wb|]. split.
+  { unfold expected. rewrite (mapR_ok _ gattr) by (intros g Hin; rewrite Forall_forall in Gd; apply (rgroup_attr_ok (w_n m)), Gd, Hin).
+    cbn [rbind]. rewrite Tp. reflexivity. }
+  split; [exact Ra|]. split; [exact Rl|]. split; [exact Rb|].
+  cbn [m_topo m_idx m_attrs]. split; [reflexivity|]. split; [reflexivity|]. split; [apply Permutation_map, Hperm|].
+  split; [exact Da|]. split; [exact Dl|exact Db].
+Qed.
+Print Assumptions ply_property_points_st.
